@@ -75,7 +75,7 @@ pub fn check_tape(tape: &[u16], rc: &mut RCase, feat: &Feat) -> Result<(), Failu
         }
         Ok(x) => x,
     };
-    if x.wide || !x.out_of_range.is_empty() {
+    if x.wide || !x.out_of_range.is_empty() || x.beyond_i64 {
         rc.label("deferred:quantity_out_of_field_range(C02)");
         if let Err(StageErr::Panic { .. }) = &ra {
             rc.label("panic_counted_for_C14");
